@@ -498,7 +498,10 @@ def gen_select_sequence(draw):
     enc = case["enc"]
     steps = [{"assign": case["assign"], "field": case["field"]}]
     for _ in range(draw(st.integers(1, 4))):
-        assign = {n: (draw(SPEC_BY_KIND[x["k"]]) if draw(st.integers(0, 3)) else x) for n, x in case["assign"].items()}
+        # a numeric parameter may be a calibrated float in one packet and an uncalibrated int in the next
+        assign = {n: (draw(st.one_of(SPEC_BY_KIND["int"], SPEC_BY_KIND["float"]) if x["k"] in ("int", "float")
+                           else SPEC_BY_KIND[x["k"]]) if draw(st.integers(0, 3)) else x)
+                  for n, x in case["assign"].items()}
         field = draw(st.one_of(st.just(case["field"]), gen_field(enc)))
         steps.append({"assign": assign, "field": field})
     order = draw(st.permutations(range(len(steps))))
